@@ -46,6 +46,7 @@ struct Node { var link[2]; int64_t id; int64_t canary; };
 static long long fin_ids[MAXID]; static size_t nfin;
 static long long fin_count[MAXID];
 extern var Node;
+static long long fin_raise_id;                    /* the finaliser of this Node raises (once) */
 static int fin_allocs;                            /* > 0: every Node finaliser allocates that many managed objects */
 static long long anode_fin, anode_dealloc;        /* every finalised arena object is also handed back to its own deallocator */
 static void Node_New(var self, var args) { struct Node* n = self; n->id = c_int(get(args, $I(0))); n->canary = NODE_CANARY; n->link[0] = n->link[1] = NULL; }
@@ -56,6 +57,7 @@ static void Node_Del(var self) {
   if (id > 0) fin_count[id]++;
   n->canary = 0;
   if (type_of(self) != Node) anode_fin++;
+  if (fin_raise_id && id == fin_raise_id) { fin_raise_id = 0; throw(ValueError, "finaliser of %i raises", $I(id)); }
   if (fin_allocs > 0) { for (int k = 0; k < fin_allocs; k++) { var g = new(Int, $I(k)); (void)g; } }    /* a finaliser that allocates */
 }
 var Node = Cello(Node, Instance(New, Node_New, Node_Del));
@@ -314,6 +316,8 @@ static void __attribute__((noinline)) boxcont_build(long n) {
   var e2 = new(Box, new(Node, $I(1000 + n))); ref(e2, NULL);    /* ... and one that gave its object up */
 }
 
+static void __attribute__((noinline)) plain_nodes_build(long base, long n) { for (long i = 0; i < n; i++) { var nd = new(Node, $I(base + i)); (void)nd; } }
+
 static int kind_of(const char* s) { for (int k = 1; k <= K_TREEK; k++) if (!strcmp(s, KN[k])) return k; return 0; }
 
 static int wfd = 1;
@@ -509,6 +513,21 @@ static int __attribute__((noinline)) real_main(int argc, char** argv) {
       long twice = 0, gone = 0; for (long i = 0; i < n; i++) { if (fin_count[1000 + i] > 1) twice++; if (fin_count[1000 + i] == 1) gone++; }
       ev_begin("bulk"); ev_int("n", n); ev_int("rooted", 0); ev_int("lost", 0); ev_int("twice", twice); ev_int("stale", 0); ev_int("gone", gone);
       ev_str("exc", hc_exc); ev_int("line", cur_line); ev_end();
+    } else if (hc_is(0, "finraise")) {         /* finraise <n> : one finaliser of n garbage Nodes raises during a threshold collection; the program
+                                                  handles it; the collector must go on collecting afterwards */
+      long n = (long)hc_int(1); if (n > 20000) n = 20000;
+      bulkn = 0; fin_raise_id = 1000 + n / 2;
+      const char* first = "";
+      HC_TRY(cycles_build(n); scrub(); do_collect(1)); first = hc_exc;
+      for (int rep = 0; rep < 3 && fin_raise_id; rep++) { HC_TRY(do_collect(1)); if (hc_exc[0]) first = hc_exc; }
+      long before = 0; for (long i = 0; i < n; i++) before += fin_count[1000 + i];
+      /* a second batch of garbage, after the exception was handled: threshold collections must still happen */
+      long base = 1000 + n; long twice = 0, gone2 = 0;
+      HC_TRY(plain_nodes_build(base, n); scrub(); do_collect(1); do_collect(1));
+      for (long i = 0; i < n; i++) { if (fin_count[base + i] > 1) twice++; if (fin_count[base + i] == 1) gone2++; }
+      for (long i = 0; i < n; i++) if (fin_count[1000 + i] > 1) twice++;
+      ev_begin("bulk"); ev_int("n", n); ev_int("rooted", 0); ev_int("lost", 0); ev_int("twice", twice); ev_int("stale", gone2 == 0 ? 1 : 0); ev_int("gone", gone2);
+      ev_str("raised", first); ev_str("exc", hc_exc); ev_int("line", cur_line); ev_end();
     } else if (hc_is(0, "viewcopy")) {         /* copies of views are ordinary managed objects */
       volatile long bad = -1;
       HC_TRY(bad = viewcopy_run(); scrub(); do_collect(0));
